@@ -9,7 +9,11 @@ import (
 	"time"
 
 	_ "verif/checks/c01"
+	_ "verif/checks/c02"
+	_ "verif/checks/c03"
 	_ "verif/checks/c13"
+	_ "verif/checks/c14"
+	_ "verif/checks/c17"
 	_ "verif/checks/queue"
 	"verif/engine"
 )
